@@ -598,4 +598,108 @@ def seqComps {σ V R P : Type} [DecidableEq V] [Coba.C06.RewardFn R V] (w : SeqW
   { envParams := w.envParams, lrnParams := w.lrnParams, valParams := w.valParams, chunkKey := w.chunkKey,
     init := fun l => (l, w.init l), valSeed := w.valSeed, eval := seqEval w }
 
+/-! ## phase 5: PMF-answering and `learning_info`-writing learners inside the SequentialCB experiment model
+
+A learner object of a `SeqWorldX` is either an ordinary one (`ext l = none`: `base.learner l`, exactly `seqComps`), or
+* `.pmf P dflt` — it answers `predict` with a PMF.  `SequentialCB.evaluate` wraps it in `SafeLearner(learner, seed)` where
+  `seed = self._seed if self._seed is not None else CobaContext.store.get("experiment_seed")` — the `seed` argument
+  of `Comps.eval` (`effSeed`) — and `SafeLearner` draws the action with `CobaRandom(seed)`, **fresh for every
+  evaluation**: the evaluator sees `C06.wrapPmf P dflt` started at generator state `C05.normInt seed`; the generator
+  state is dropped afterwards, only the learner object's own state survives the evaluation;
+* `.info L` — it writes `CobaContext.learning_info` while predicting / learning: `C06.evaluateI` (the channel is
+  cleared when the evaluation starts, merged into the interaction's own row and cleared after every pass), un-batched
+  environments; on a batched environment the info is not modelled (`C06.evaluate` on the silent learner).
+Environment pipelines `chunk()` / `cache()` in front of the source enter through `base.chunkKey` (identity of the last
+`Chunk` pipe) exactly as in the toy kind. -/
+
+inductive SeqExt (σ V : Type) where
+  | info (L : Coba.C06.InfoLearner σ V)
+  | pmf (P : Coba.C06.PmfLearner σ V) (dflt : V)
+  /-- an ordinary learner whose answer to a batched `predict` is a list of rows with `len` items each (e.g. `(action,
+  probability)` tuples: `len = 2`) — see `probeWrap` -/
+  | rowLen (L : Coba.C06.Learner σ V) (len : Nat)
+
+/-- **The orientation probe of `SafeLearner.batch_order`** (coba/safety.py:75-102, reached from `_parse_pred` on the first
+predict of a `SafeLearner`, i.e. once per evaluation).  When the first batched answer `pred` is neither a dict nor a list
+of dicts, its first row has a `__len__`, and `len(pred) == len(pred[0])` ("square": the number of rows of the first batch
+equals the number of items per row), the major order cannot be told from the shapes and the code calls
+`predictor(Batch([context[0]]), Batch([actions[0]]))` — **a second `predict` on the first interaction**, after the
+predicts of the first batch; its answer is only measured, but a learner whose `predict` is stateful has advanced.
+`probeWrap L k`: the learner as the evaluator sees it through such a `SafeLearner` when the first batch has `k` rows:
+the state also counts the predicts of this evaluation and remembers the first call's arguments; completing the `k`-th
+predict triggers the extra call. (Recorded by C06 as `trace:extra-predict:batched-orientation-probe`; C15's `probeMade`
+is the same condition on Python values.) -/
+def probeWrap {σ V : Type} (L : Coba.C06.Learner σ V) (k : Nat) :
+    Coba.C06.Learner (σ × Nat × Option (Option V × Option (List V))) V :=
+  { hasScore := L.hasScore,
+    predict := fun st ctx acts =>
+      let r := L.predict st.1 ctx acts
+      let first := match st.2.2 with
+        | some f => f
+        | none => (ctx, acts)
+      let n := st.2.1 + 1
+      ((if n == k then (L.predict r.1 first.1 first.2).1 else r.1, n, some first), r.2),
+    score := fun st ctx acts a => let r := L.score st.1 ctx acts a; ((r.1, st.2), r.2),
+    learn := fun st ctx a r p kw => (L.learn st.1 ctx a r p kw, st.2) }
+
+def seqOutcomeB {σ V R τ : Type} (ls : Nat × σ) :
+    Coba.C06.Outcome ((σ × τ) × List (Coba.C06.Call V) × List (Coba.C06.Row V R)) →
+      Except Err (List (Coba.C06.Row V R)) × (Nat × σ)
+  | .ok r => (.ok r.2.2, (ls.1, r.1.1))
+  | .rejected _ => (.error .raised, ls)
+  | .crashed _ => (.error .raised, ls)
+
+structure SeqWorldX (σ V R P : Type) where
+  base : SeqWorld σ V R P
+  ext  : Nat → Option (SeqExt σ V)
+
+def seqOutcomeI {σ V R : Type} (ls : Nat × σ) :
+    Coba.C06.Outcome (σ × List (Coba.C06.Call V) × List (Coba.C06.Row V R) × List (Coba.C06.Row V R) ×
+        List (Coba.C06.Dict V)) →
+      Except Err (List (Coba.C06.Row V R)) × (Nat × σ)
+  | .ok r => (.ok r.2.2.1, (ls.1, r.1))
+  | .rejected _ => (.error .raised, ls)
+  | .crashed _ => (.error .raised, ls)
+
+def seqOutcomeP {σ V R : Type} (ls : Nat × σ) :
+    Coba.C06.Outcome ((σ × Nat) × List (Coba.C06.Call V) × List (Coba.C06.Row V R)) →
+      Except Err (List (Coba.C06.Row V R)) × (Nat × σ)
+  | .ok r => (.ok r.2.2, (ls.1, r.1.1))
+  | .rejected _ => (.error .raised, ls)
+  | .crashed _ => (.error .raised, ls)
+
+/-- the evaluation of an extended learner object on the interactions `rows` of environment `e` -/
+def seqEvalExt {σ V R P : Type} [DecidableEq V] [Coba.C06.RewardFn R V] (w : SeqWorld σ V R P)
+    (v e : Nat) (ls : Nat × σ) (seed : Nat) (rows : List (Coba.C06.Dict (Coba.C06.Fld V R))) :
+    SeqExt σ V → Except Err (List (Coba.C06.Row V R)) × (Nat × σ)
+  | .info L =>
+    match w.batch e with
+    | none => seqOutcomeI ls (Coba.C06.evaluateI (w.cfgOf v) L rows ls.2)
+    | some n => seqOutcome ls (Coba.C06.evaluate (w.cfgOf v) L.toLearner (some n) rows ls.2)
+  | .rowLen L len =>
+    match w.batch e with
+    | some n =>
+      -- the first batch has `min n rows.length` rows; the probe is made iff that equals the row length of the answers
+      if min n rows.length = len then
+        seqOutcomeB ls (Coba.C06.evaluate (w.cfgOf v) (probeWrap L len) (some n) rows (ls.2, 0, none))
+      else seqOutcome ls (Coba.C06.evaluate (w.cfgOf v) L (some n) rows ls.2)
+    | none => seqOutcome ls (Coba.C06.evaluate (w.cfgOf v) L none rows ls.2)
+  | .pmf P dflt =>
+    seqOutcomeP ls (Coba.C06.evaluate (w.cfgOf v) (Coba.C06.wrapPmf P dflt) (w.batch e) rows
+      (ls.2, Coba.C05.normInt (Int.ofNat seed)))
+
+def seqEvalX {σ V R P : Type} [DecidableEq V] [Coba.C06.RewardFn R V] (w : SeqWorldX σ V R P)
+    (v e : Nat) (ls : Nat × σ) (seed : Nat) : Except Err (List (Coba.C06.Row V R)) × (Nat × σ) :=
+  match w.ext ls.1 with
+  | none => seqEval w.base v e ls seed
+  | some x =>
+    match w.base.envRows e with
+    | .error _ => (.error .raised, ls)
+    | .ok rows => seqEvalExt w.base v e ls seed rows x
+
+def seqCompsX {σ V R P : Type} [DecidableEq V] [Coba.C06.RewardFn R V] (w : SeqWorldX σ V R P) :
+    Comps (Nat × σ) P (Coba.C06.Row V R) :=
+  { envParams := w.base.envParams, lrnParams := w.base.lrnParams, valParams := w.base.valParams,
+    chunkKey := w.base.chunkKey, init := fun l => (l, w.base.init l), valSeed := w.base.valSeed, eval := seqEvalX w }
+
 end Coba.C01
